@@ -29,7 +29,7 @@ def gen_cases(tier, seed):
     cases = []
     n = 320 if tier == "quick" else 3000
     for i in range(n):
-        cases.append({"kind": "synthetic", "seed": int(rng.integers(10 ** 9)), "lang": ["C", "Py"][i % 2], "classical": bool(rng.integers(5) == 0),
+        cases.append({"kind": "synthetic", "_threads": [1, 2, 3, 5, 7, 16][int(rng.integers(6))], "seed": int(rng.integers(10 ** 9)), "lang": ["C", "Py"][i % 2], "classical": bool(rng.integers(5) == 0),
                       "cutoff": [None, "inside", "inside", -1.0][rng.integers(4)], "imag": bool(rng.integers(3) == 0), "pretend_real": bool(rng.integers(4) == 0),
                       "band_indices": bool(i % 5 == 0), "projection": bool(i % 5 == 1),  # never together: unsupported combination (raises)
                       "tgrid": ["wide", "cold", "hot", "linear"][rng.integers(4)]})
